@@ -152,5 +152,5 @@ func c08Straight(nInstr, nRes int, pathSensitive bool) {
 // Harness_C08_whole_1: one instruction, one to three results.
 func Harness_C08_whole_1() { c08Straight(1, verifPick("results", 1, 3), false) }
 
-// Harness_C08_whole_2_T: two chained instructions, two results (thorough).
-func Harness_C08_whole_2_T() { c08Straight(2, 2, verifBool("path-sensitive")) }
+// Harness_C08_whole_2_T: two chained instructions, one result (thorough; result arities are covered by whole_1).
+func Harness_C08_whole_2_T() { c08Straight(2, 1, verifBool("path-sensitive")) }
